@@ -241,7 +241,7 @@ class Model:
             from .inventory import FUNCTIONS
         except ImportError:
             return
-        from .inline import MAX_ROUNDS, inline_new_helpers
+        from .inline import MAX_ROUNDS, drop_absorbed_helpers, inline_new_helpers
 
         for _ in range(MAX_ROUNDS):
             changed = inline_new_helpers(self, FUNCTIONS)
@@ -249,6 +249,10 @@ class Model:
                 break
             self.inlined += changed
             self._reindex()
+        if self.inlined:
+            self.absorbed = drop_absorbed_helpers(self, FUNCTIONS)
+            if self.absorbed:
+                self._reindex()
 
     def _reindex(self):
         self.functions.clear()
